@@ -186,6 +186,8 @@ def run_tlc(ctx, name, spec, env_override=None, allow_spec_violation=False):
            "-metadir", meta, "-cleanup", "-noGenerateSpecTE", "-nowarning"]
     if spec.get("cont", True):
         cmd.append("-continue")
+    if name.startswith("mc_"):
+        cmd += ["-coverage", "1"]        # per-action counts: an action never taken would be vacuity
     cmd += spec.get("args", [])
     cmd += ["-config", os.path.join(SPEC, spec["cfg"]), os.path.join(SPEC, spec["module"] + ".tla")]
     t = time.time()
@@ -199,6 +201,15 @@ def run_tlc(ctx, name, spec, env_override=None, allow_spec_violation=False):
     wall = time.time() - t
     out = p.stdout
     recs, notes, st = parse_tlc(out)
+    cov = {}
+    for m in re.finditer(r"^<(\w+) line (\d+), col \d+ to line \d+, col \d+ of module (\w+)(?: \(([\d ]+)\))?>: (\d+):(\d+)\s*$", out, re.M):
+        cov["%s@%s:%s%s" % (m.group(1), m.group(3), m.group(2), (" (" + m.group(4) + ")") if m.group(4) else "")] = \
+            {"distinct": int(m.group(5)), "generated": int(m.group(6))}
+    if cov:
+        untaken = sorted(a for a, v in cov.items() if v["generated"] == 0)
+        notes.append({"action_coverage": cov, "actions_never_taken": untaken})
+        if untaken:
+            log("WARNING: TLC job %s: actions never taken: %s" % (name, untaken))
     with open(os.path.join(meta, "out.txt"), "w") as f:
         f.write(out)
     if spec.get("expect_violation"):
